@@ -84,6 +84,7 @@ type Engine struct {
 	sched        *scheduler
 	preemptBound int
 	syncMaps     map[*value]map[any]value
+	envFS        map[string]bool // environment-stub file system: paths created on this path
 	budgetAt     int64
 	budgetMsg    string
 	TimeoutMs   int
@@ -262,6 +263,7 @@ func (e *Engine) resetPath() {
 	e.sched = nil
 	e.preemptBound = -1
 	e.syncMaps = map[*value]map[any]value{}
+	e.envFS = map[string]bool{}
 	if e.depth > 0 {
 		e.send(fmt.Sprintf("(pop %d)", e.depth))
 	}
